@@ -50,6 +50,14 @@ func runSolver(ctx context.Context, sp solverSpec, file string, secs int) (strin
 	cmd.Stderr = &out
 	cmd.Run()
 	s := out.String()
+	// old z3 prints WARNING lines (e.g. about patterns) before its answer
+	for strings.HasPrefix(s, "WARNING") {
+		i := strings.Index(s, "\n")
+		if i < 0 {
+			break
+		}
+		s = s[i+1:]
+	}
 	first := strings.TrimSpace(strings.SplitN(s, "\n", 2)[0])
 	switch first {
 	case "unsat", "sat", "unknown":
